@@ -87,10 +87,154 @@ Definition u2b_body (p : list Z) : step :=
 Definition big5_to_utf8 (s : list Z) : res (list Z) := scan b2u_body (S (length s)) s.
 Definition utf8_to_big5 (s : list Z) : res (list Z) := scan u2b_body (S (length s)) s.
 
-(* wire: op 1 Big5ToUtf8(bytes), op 2 Utf8ToBig5(string(bytes)) *)
+(* ------------------------------------------------------------------ initialisation paths
+   The two maps are package state: empty in a new process, filled by initBig5() (called from
+   types.InitConfig() -> postConfig(), and again on every later InitConfig()). The state is made explicit
+   here; big5_to_utf8 / utf8_to_big5 above are the converters of the fully loaded state. *)
+
+Record tabs := mk_tabs { tb : tab; tu : tab }.                    (* big5ToUTF8, utf8ToBig5 *)
+Definition no_tabs : tabs := mk_tabs (PositiveMap.empty (list Z)) (PositiveMap.empty (list Z)).
+Definition all_tabs : tabs := mk_tabs b2u_map u2b_map.
+
+(* the row loop of initB2U / initU2B, run on the map as it is *)
+Definition load_into (m : tab) (kv : Z * Z -> list Z * list Z) (rows : list (Z * Z)) : tab :=
+  fold_left (fun m r => PositiveMap.add (bkey (fst (kv r))) (snd (kv r)) m) rows m.
+Definition loaded (m : tab) : bool := negb (PositiveMap.is_empty m).       (* len(m) > 0 *)
+
+(* initB2U / initU2B: "already loaded" guard, then os.Open + io.ReadAll (readable = both succeed, and the
+   file then has the rows gosync re-read), then the row loop. Result: (err == nil, the map afterwards). *)
+Definition init_b2u (readable : bool) (m : tab) : bool * tab :=
+  if loaded m then (true, m) else if readable then (true, load_into m b2u_kv b2u_rows) else (false, m).
+Definition init_u2b (readable : bool) (m : tab) : bool * tab :=
+  if loaded m then (true, m) else if readable then (true, load_into m u2b_kv u2b_rows) else (false, m).
+
+(* initBig5 with a = (BIG5_TO_UTF8 is readable, UTF8_TO_BIG5 is readable) *)
+Definition init_big5 (a : bool * bool) (t : tabs) : bool * tabs :=
+  let (ok1, m1) := init_b2u (fst a) (tb t) in
+  if ok1 then let (ok2, m2) := init_u2b (snd a) (tu t) in (ok2, mk_tabs m1 m2)
+  else (false, mk_tabs m1 (tu t)).
+
+(* a history of start-up attempts: the status of each, and the tables afterwards *)
+Fixpoint run_inits (h : list (bool * bool)) (t : tabs) : list bool * tabs :=
+  match h with
+  | [] => ([], t)
+  | a :: h' => let (ok, t1) := init_big5 a t in let (oks, t2) := run_inits h' t1 in (ok :: oks, t2)
+  end.
+
+(* the converters on whatever the maps hold *)
+Definition b2u_body_of (m : tab) (p : list Z) : step :=
+  match p with
+  | [] => Stop
+  | b0 :: r =>
+      if b0 <? 128 then Adv [b0] r
+      else match r with
+           | [] => Stop
+           | b1 :: r1 => Adv (match lookup m [b0; b1] with Some v => v | None => [] end) r1
+           end
+  end.
+Definition u2b_get_of (m : tab) (k : list Z) : list Z := match lookup m k with Some v => v | None => replacement end.
+Definition u2b_body_of (m : tab) (p : list Z) : step :=
+  match p with
+  | [] => Stop
+  | b0 :: r =>
+      if b0 <? 128 then Adv [b0] r
+      else match r with
+           | [] => u2b_else r
+           | b1 :: r1 =>
+               if Z.land b0 224 =? 192 then Adv (u2b_get_of m [b0; b1]) r1
+               else match r1 with
+                    | [] => u2b_else r
+                    | b2 :: r2 =>
+                        if Z.land b0 240 =? 224 then Adv (u2b_get_of m [b0; b1; b2]) r2
+                        else u2b_else r
+                    end
+           end
+  end.
+Definition big5_to_utf8_of (m : tab) (s : list Z) : res (list Z) := scan (b2u_body_of m) (S (length s)) s.
+Definition utf8_to_big5_of (m : tab) (s : list Z) : res (list Z) := scan (u2b_body_of m) (S (length s)) s.
+
+(* ptttype: BBSNAME (UTF-8) and BBSNAME_BIG5, compiled-in defaults of ptttype/00-config.go *)
+Record bbs := mk_bbs { bbs_name : list Z; bbs_big5 : list Z }.
+Definition default_bbs : bbs :=
+  mk_bbs [230; 150; 176; 230; 137; 185; 232; 184; 162; 232; 184; 162] [183; 115; 167; 229; 189; 240; 189; 240].
+(* setBBSName(n): BBSNAME = n; BBSNAME_BIG5 = types.Utf8ToBig5(BBSNAME) *)
+Definition set_bbs_name (t : tabs) (n : list Z) (st : bbs) : res bbs :=
+  res_map (fun b => mk_bbs n b) (utf8_to_big5_of (tu t) n).
+(* ptttype.InitConfig(): config() stores the configured site name when the key is set,
+   postInitConfig() calls setBBSName(BBSNAME) *)
+Definition bbs_init_config (t : tabs) (cfg : option (list Z)) (st : bbs) : res bbs :=
+  let st1 := match cfg with Some n => mk_bbs n (bbs_big5 st) | None => st end in
+  set_bbs_name t (bbs_name st1) st1.
+Fixpoint bbs_steps (t : tabs) (cfgs : list (option (list Z))) (st : bbs) : res (list bbs) :=
+  match cfgs with
+  | [] => Ok []
+  | c :: r => res_bind (bbs_init_config t c st) (fun st1 => res_map (cons st1) (bbs_steps t r st1))
+  end.
+
+(* wire helpers of ops 10 / 11 *)
+Fixpoint parse_hist (h : list Z) : option (list (bool * bool)) :=
+  match h with
+  | [] => Some []
+  | pb :: pu :: r =>
+      if (0 <=? pb) && (pb <=? 3) && (0 <=? pu) && (pu <=? 3)
+      then match parse_hist r with Some l => Some ((pb =? 0, pu =? 0) :: l) | None => None end
+      else None
+  | _ => None
+  end.
+Definition lenpfx (l : list Z) : list Z := Z.of_nat (length l) :: l.
+Definition conv_wire (r : res (list Z)) : list Z :=
+  match r with Ok o => ST_OK :: lenpfx o | Crash => [ST_CRASH] | Hang => [ST_HANG] end.
+Definition conv_of (t : tabs) (g : list Z) : option (list Z) :=
+  match g with
+  | 1 :: s => Some (conv_wire (big5_to_utf8_of (tb t) s))
+  | 2 :: s => Some (conv_wire (utf8_to_big5_of (tu t) s))
+  | 3 :: s => Some (conv_wire (res_bind (big5_to_utf8_of (tb t) s) (utf8_to_big5_of (tu t))))
+  | 4 :: s => Some (conv_wire (res_bind (utf8_to_big5_of (tu t) s) (big5_to_utf8_of (tb t))))
+  | _ => None
+  end.
+Fixpoint convs_of (t : tabs) (gs : list (list Z)) : option (list Z) :=
+  match gs with
+  | [] => Some []
+  | g :: r => match conv_of t g, convs_of t r with Some a, Some b => Some (a ++ b) | _, _ => None end
+  end.
+Fixpoint parse_steps (gs : list (list Z)) : option (list (option (list Z))) :=
+  match gs with
+  | [] => Some []
+  | g :: r =>
+      match parse_steps r with
+      | None => None
+      | Some l => match g with [0] => Some (None :: l) | 1 :: n => Some (Some n :: l) | _ => None end
+      end
+  end.
+Definition sts_wire (oks : list bool) : list Z := lenpfx (map (fun b : bool => if b then 0 else 1) oks).
+Definition bbs_wire (t : tabs) (st : bbs) : list Z :=
+  lenpfx (bbs_name st) ++ lenpfx (bbs_big5 st) ++
+  lenpfx (match utf8_to_big5_of (tu t) (bbs_name st) with Ok o => o | _ => [] end).
+
+(* wire: op 1 Big5ToUtf8(bytes), op 2 Utf8ToBig5(string(bytes)) — tables loaded;
+   op 10: history of start-ups in a new process, then conversions on the tables it leaves;
+   op 11: history of start-ups in a new process, then ptttype.InitConfig() steps (formats: c17init.go) *)
 Definition run_case (args : list (list Z)) : list Z :=
   match args with
   | [[1]; s] => wire (fun o => o) (big5_to_utf8 s)
   | [[2]; s] => wire (fun o => o) (utf8_to_big5 s)
+  | [10] :: h :: gs =>
+      match parse_hist h with
+      | None => [ST_BADCASE]
+      | Some hs =>
+          let (oks, t) := run_inits hs no_tabs in
+          match convs_of t gs with Some o => ST_OK :: sts_wire oks ++ o | None => [ST_BADCASE] end
+      end
+  | [11] :: h :: gs =>
+      match parse_hist h, parse_steps gs with
+      | Some hs, Some cfgs =>
+          let (oks, t) := run_inits hs no_tabs in
+          match bbs_steps t cfgs default_bbs with
+          | Ok sts => ST_OK :: sts_wire oks ++ flat_map (bbs_wire t) sts
+          | Crash => [ST_CRASH]
+          | Hang => [ST_HANG]
+          end
+      | _, _ => [ST_BADCASE]
+      end
   | _ => [ST_BADCASE]
   end.
